@@ -149,6 +149,24 @@ def py_diff(ctx):
             ctx.require(c)
 
 
+def carry_proofs(ctx):
+    """TLAPS checks spec/proofs/RangeCarry.tla (theorem CarryStep, inductive): the range encoder with its held-back words - it never
+    revisits a written word - emits exactly the digits of the arbitrary-precision, carry-propagating reference coder, for ALL widths,
+    precisions and message lengths (RefAgree and the normal-situation invariant are preserved by every step: no renormalisation,
+    normal -> normal, normal -> inverted, inverted -> inverted, resolution with and without carry).  MC_Range.CarryBridge (TLC, every
+    reachable state and slot) ties REnc / HeldCarry / HeldNoCarry / RefEnc of Range.tla to the numeric step of the theorem."""
+    import shutil, subprocess, re
+    wd = os.path.join(ctx.work, "proofs_carry")
+    shutil.copytree(os.path.join(core.SPEC, "proofs"), wd, ignore=shutil.ignore_patterns(".tlacache"))
+    p = subprocess.run(["timeout", "1500", "tlapm", "--threads", "6", "--cleanfp", "RangeCarry.tla"], cwd=wd, stdout=subprocess.PIPE, stderr=subprocess.STDOUT, text=True)
+    m = re.search(r"All (\d+) obligations proved", p.stdout)
+    if not m:
+        raise core.ToolError("TLAPS did not prove spec/proofs/RangeCarry.tla:\n" + p.stdout[-1500:])
+    ctx.classes["tlaps_obligations_proved"] = ctx.classes.get("tlaps_obligations_proved", 0) + int(m.group(1))
+    ctx.assumptions.append("TLAPS 1.6 (SMT back end Z3) checks proofs correctly")
+    ctx.require("tlaps_obligations_proved", 350)
+
+
 def model_proofs(ctx):
     """TLAPS checks spec/proofs/LeakyValid.tla: the leaky quantisation of LeakyQuantizer and of the `fast` categorical constructors
     (FixedPoint.tla: LeakyLeft / FastLeft) gives every symbol a probability of at least one quantum and tiles [0, 2^P) for ALL
@@ -244,7 +262,8 @@ def c06(ctx):
     range_traces(ctx, exact=True)
     range_steered(ctx, exact=True)
     ans_states(ctx, ["TypeInv", "StateInv"], "c06")
-    range_hists(ctx, ["TypeInv", "StateInv", "RefAgree"], "c06")
+    carry_proofs(ctx)
+    range_hists(ctx, ["TypeInv", "StateInv", "RefAgree", "CarryBridge"], "c06")
     rdec_cases(ctx, "c06")
     for c in RANGE_CLASSES:
         ctx.require(c)
